@@ -2,7 +2,7 @@
 # usage: matrix.sh [<seeded id> ...]   - runs every seeded regression against the check of its property
 # (and prints one line per mutant: caught / MISSED); needs a clean /repo
 cd /verif
-ids="$@"; [ -z "$ids" ] && ids=$(ls seeded)
+ids="$@"; [ -z "$ids" ] && ids=$(cd seeded && ls -d */ | tr -d /)
 for id in $ids; do
   prop=$(python3 -c "import json;print(json.load(open('seeded/$id/meta.json'))['property'])")
   out=$(SEEDS="${SEEDS:-0 1}" harness/dev/mutant.sh $PWD/seeded/$id/patch.diff $prop 2>&1)
